@@ -362,24 +362,65 @@ func init() {
 // ---- cron, templates, strings.Builder
 
 func init() {
-	intercepts[repoMod+"/internal/util.Next"] = func(ex *Exec, fr *Frame, a []Value, s ssa.Instruction) Value {
-		tt := ex.tt
-		ex.H.noteStub("util.Next (robfig/cron): uninterpreted next(t, cron) with next > t; parse failure nondeterministic")
-		cur, cron := a[0].(*Term), a[1].(*Term)
-		if !ex.branch(tt.UF("cron_valid", SBool, cron), "cron-valid") {
-			return &TupleV{vs: []Value{tt.BV(0, 64), ex.opaqueErr("cron: parse error")}}
-		}
-		n := tt.UF("cron_next", SBV64, cur, cron)
-		ex.addPC(tt.And(tt.SLt(cur, n), tt.SLt(n, tt.BV(1<<62, 64))))
-		return &TupleV{vs: []Value{n, nilErr()}}
+	// robfig/cron and the time values around it (the real util.Next / util.ParseCron run on top of these):
+	// Parser.Parse forks {error, schedule}; Schedule.Next(t) is the uninterpreted next(t, cron) with
+	// next > t; time.Unix / UnixMilli / Truncate are exact on whole milliseconds.
+	cr := "github.com/robfig/cron/v3."
+	intercepts[cr+"NewParser"] = func(ex *Exec, fr *Frame, a []Value, s ssa.Instruction) Value {
+		return &OpaqueV{kind: "cronparser", data: a[0]}
 	}
-	intercepts[repoMod+"/internal/util.ParseCron"] = func(ex *Exec, fr *Frame, a []Value, s ssa.Instruction) Value {
+	intercepts["("+cr+"Parser).Parse"] = func(ex *Exec, fr *Frame, a []Value, s ssa.Instruction) Value {
 		tt := ex.tt
-		ex.H.noteStub("util.ParseCron (robfig/cron): uninterpreted validity")
-		if !ex.branch(tt.UF("cron_valid", SBool, a[0].(*Term)), "cron-valid") {
+		ex.H.noteStub("robfig/cron: Parse forks {error, schedule} on an uninterpreted validity; Schedule.Next(t) = next(t, cron) > t")
+		if !ex.branch(tt.UF("cron_valid", SBool, a[1].(*Term)), "cron-valid") {
 			return &TupleV{vs: []Value{&IfaceV{}, ex.opaqueErr("cron: parse error")}}
 		}
-		return &TupleV{vs: []Value{&IfaceV{typ: ex.P.errorStringType(), v: &OpaqueV{kind: "cronschedule", data: a[0]}}, nilErr()}}
+		return &TupleV{vs: []Value{&IfaceV{typ: ex.P.errorStringType(), v: &OpaqueV{kind: "cronschedule", data: a[1]}}, nilErr()}}
+	}
+	intercepts[cr+"ParseStandard"] = func(ex *Exec, fr *Frame, a []Value, s ssa.Instruction) Value {
+		return intercepts["("+cr+"Parser).Parse"](ex, fr, []Value{nil, a[0]}, s)
+	}
+	timeMs := func(ex *Exec, v Value) *Term {
+		if o, ok := v.(*OpaqueV); ok && o.kind == "time" {
+			return o.data.(*Term)
+		}
+		panic(ex.unsupported("time.Time value that does not come from time.Unix/UnixMilli"))
+	}
+	intercepts["opaque:cronschedule.Next"] = func(ex *Exec, fr *Frame, a []Value, s ssa.Instruction) Value {
+		tt := ex.tt
+		cur := timeMs(ex, a[1])
+		n := tt.UF("cron_next", SBV64, cur, a[0].(*OpaqueV).data.(*Term))
+		ex.addPC(tt.And(tt.SLt(cur, n), tt.SLt(n, tt.BV(1<<62, 64))))
+		return &OpaqueV{kind: "time", data: n}
+	}
+	intercepts["time.UnixMilli"] = func(ex *Exec, fr *Frame, a []Value, s ssa.Instruction) Value {
+		return &OpaqueV{kind: "time", data: a[0].(*Term)}
+	}
+	intercepts["time.Unix"] = func(ex *Exec, fr *Frame, a []Value, s ssa.Instruction) Value {
+		tt := ex.tt
+		sec, nsec := a[0].(*Term), a[1].(*Term)
+		// whole milliseconds only: Unix(0, ms*1e6) and Unix(sec, 0)
+		if sv, ok := sec.BVVal(); ok && sv == 0 && nsec.op == "bvmul" && len(nsec.args) == 2 {
+			for i := 0; i < 2; i++ {
+				if c, ok := nsec.args[i].BVVal(); ok && c == 1000000 {
+					return &OpaqueV{kind: "time", data: nsec.args[1-i]}
+				}
+			}
+		}
+		if nv, ok := nsec.BVVal(); ok && nv == 0 {
+			return &OpaqueV{kind: "time", data: tt.bin("bvmul", sec, tt.BV(1000, 64))}
+		}
+		panic(ex.unsupported("time.Unix with a nanosecond part that is not a whole number of milliseconds"))
+	}
+	intercepts["(time.Time).Truncate"] = func(ex *Exec, fr *Frame, a []Value, s ssa.Instruction) Value {
+		tt := ex.tt
+		ms := timeMs(ex, a[0])
+		d, ok := a[1].(*Term).BVVal()
+		if !ok || int64(d) <= 0 || d%1000000 != 0 {
+			panic(ex.unsupported("time.Truncate by a symbolic or sub-millisecond duration"))
+		}
+		// (times in the harnesses are non-negative; Unix epoch alignment equals zero-time alignment for units that divide a minute... hours/days differ by a constant that is a multiple of them too)
+		return &OpaqueV{kind: "time", data: tt.bin("bvsub", ms, tt.bin("bvurem", ms, tt.BV(d/1000000, 64)))}
 	}
 	intercepts["html/template.New"] = func(ex *Exec, fr *Frame, a []Value, s ssa.Instruction) Value {
 		ex.H.noteStub("html/template: Parse forks {error, ok}; Execute writes an uninterpreted expansion (escaping invisible)")
@@ -772,6 +813,9 @@ func init() {
 		return &OpaqueV{kind: "chan-nil"} // never fires within one step of the skeleton
 	}
 	intercepts["(time.Time).UnixMilli"] = func(ex *Exec, fr *Frame, a []Value, s ssa.Instruction) Value {
+		if o, ok := a[0].(*OpaqueV); ok && o.kind == "time" {
+			return o.data.(*Term)
+		}
 		ex.W.advanceTime(ex)
 		return ex.W.now
 	}
@@ -1068,4 +1112,98 @@ func init() {
 	vx("HttpErrorCode", func(ex *Exec, fr *Frame, a []Value, s ssa.Instruction) Value {
 		return ex.tt.Resize(ex.W.httpErrors[ex.concreteInt(a[0], "index")], 64, true)
 	})
+}
+
+// ---- server lifecycle: which stop primitive a front end uses. Only GracefulStop (grpc) and Shutdown
+// (net/http) wait for in-flight handlers; Stop / Close drop them.
+func init() {
+	rec := func(name string, ret func(ex *Exec) Value) InterceptFn {
+		return func(ex *Exec, fr *Frame, a []Value, s ssa.Instruction) Value {
+			ex.W.lifecycle = append(ex.W.lifecycle, name)
+			if ret != nil {
+				return ret(ex)
+			}
+			return nil
+		}
+	}
+	intercepts["google.golang.org/grpc.NewServer"] = func(ex *Exec, fr *Frame, a []Value, s ssa.Instruction) Value {
+		return ex.opaquePtr("grpcserver", nil)
+	}
+	intercepts["(*google.golang.org/grpc.Server).GracefulStop"] = rec("grpc.GracefulStop", nil)
+	intercepts["(*google.golang.org/grpc.Server).Stop"] = rec("grpc.Stop", nil)
+	intercepts["(*google.golang.org/grpc.Server).RegisterService"] = rec("grpc.RegisterService", nil)
+	intercepts["(*net/http.Server).Shutdown"] = rec("http.Shutdown", func(ex *Exec) Value { return nilErr() })
+	intercepts["(*net/http.Server).Close"] = rec("http.Close", func(ex *Exec) Value { return nilErr() })
+	vx("Lifecycle", func(ex *Exec, fr *Frame, a []Value, s ssa.Instruction) Value {
+		return ex.tt.Str(strings.Join(ex.W.lifecycle, ","))
+	})
+}
+
+// ---- sync.Map (string keys) and strings.Map. A sync.Map starts empty on every path (process-global caches
+// are assumed cold: stated bound); lookups compare keys symbolically against this path's own stores.
+type syncMapEntry struct {
+	k *Term
+	v Value
+}
+
+func init() {
+	keyOf := func(ex *Exec, v Value) *Term {
+		if iv, ok := v.(*IfaceV); ok {
+			if t, ok := iv.v.(*Term); ok && t.sort == SString {
+				return t
+			}
+		}
+		panic(ex.unsupported("sync.Map with a non-string key"))
+	}
+	objOf := func(ex *Exec, v Value) int {
+		p := ex.ptr(v)
+		return p.obj.id*1000 + len(p.path)*37 + func() int {
+			h := 0
+			for _, x := range p.path {
+				h = h*31 + x
+			}
+			return h
+		}()
+	}
+	intercepts["(*sync.Map).Store"] = func(ex *Exec, fr *Frame, a []Value, s ssa.Instruction) Value {
+		ex.H.noteBound("sync.Map caches start empty on every path")
+		id := objOf(ex, a[0])
+		if ex.W.syncMaps == nil {
+			ex.W.syncMaps = map[int][]syncMapEntry{}
+		}
+		ex.W.syncMaps[id] = append(ex.W.syncMaps[id], syncMapEntry{k: keyOf(ex, a[1]), v: a[2]})
+		return nil
+	}
+	load := func(ex *Exec, a []Value) (Value, bool) {
+		ex.H.noteBound("sync.Map caches start empty on every path")
+		id := objOf(ex, a[0])
+		k := keyOf(ex, a[1])
+		es := ex.W.syncMaps[id]
+		for i := len(es) - 1; i >= 0; i-- {
+			if ex.branch(ex.tt.Eq(k, es[i].k), "syncmap-key") {
+				return es[i].v, true
+			}
+		}
+		return &IfaceV{}, false
+	}
+	intercepts["(*sync.Map).Load"] = func(ex *Exec, fr *Frame, a []Value, s ssa.Instruction) Value {
+		v, ok := load(ex, a)
+		return &TupleV{vs: []Value{v, ex.tt.Bool(ok)}}
+	}
+	intercepts["(*sync.Map).LoadOrStore"] = func(ex *Exec, fr *Frame, a []Value, s ssa.Instruction) Value {
+		if v, ok := load(ex, a); ok {
+			return &TupleV{vs: []Value{v, ex.tt.Bool(true)}}
+		}
+		intercepts["(*sync.Map).Store"](ex, fr, a, s)
+		return &TupleV{vs: []Value{a[2], ex.tt.Bool(false)}}
+	}
+	intercepts["strings.Map"] = func(ex *Exec, fr *Frame, a []Value, s ssa.Instruction) Value {
+		x := a[1].(*Term)
+		name := "anon"
+		if f, ok := a[0].(*FuncV); ok && f.fn != nil {
+			name = sanitize(f.fn.String())
+		}
+		ex.H.noteStub("strings.Map (uninterpreted per mapping function)")
+		return ex.tt.UF("strmap_"+name, SString, x)
+	}
 }
